@@ -97,7 +97,7 @@ def cases(tier, seed):
             for c in trip:
                 for nan in (True, False):
                     yield dict(kind="maxabs", arrays=[a, b, c], nan=nan)
-    for bad in ("w_gt_e", "s_gt_n", "len3", "len5", "len2"):
+    for bad in ("w_gt_e", "s_gt_n", "len3", "len5", "len2", "w_gt_e_tiny", "s_gt_n_tiny"):
         for entry in ("grid_coordinates", "scatter_points", "inside", "block_split", "BlockReduce", "CheckerBoard.grid",
                       "rolling_window", "project_region", "check_region"):
             yield dict(kind="invalid", bad=bad, entry=entry)
@@ -330,7 +330,7 @@ def run(case, rec):
     if kind == "invalid":
         rec.trivial = True
         bad = dict(w_gt_e=[4.0, 0.0, 0.0, 3.0], s_gt_n=[0.0, 4.0, 3.0, 0.0], len3=[0.0, 4.0, 0.0], len5=[0.0, 4.0, 0.0, 3.0, 1.0],
-                   len2=[0.0, 4.0])[case["bad"]]
+                   len2=[0.0, 4.0], w_gt_e_tiny=[1.0 + 2.0 ** -40, 1.0, 0.0, 3.0], s_gt_n_tiny=[0.0, 4.0, 2.0, 2.0 - 2.0 ** -40])[case["bad"]]
         pts = (np.array([0.5, 1.0, 3.0]), np.array([0.5, 1.0, 2.0]))
         entry = case["entry"]
         fns = {
